@@ -109,9 +109,9 @@ toy_sw!(T13a, FDT13, Fr19, 0, 2, 1, 4, 1, {});
 toy_glv!(T13a, FDT13, 9, 7, [(false, 5), (false, 2), (true, 2), (false, 3)]);
 toy_sw!(T13aO, FDT13, Fr19, 0, 2, 1, 4, 1, { glv_override!(); });
 toy_glv!(T13aO, FDT13, 9, 7, [(false, 5), (false, 2), (true, 2), (false, 3)]);
-// the same curve with the scalar field in two limbs
-toy_sw!(T13aX, FDT13, Fr19x2, 0, 2, 1, 4, 1, { glv_override!(); });
-toy_glv!(T13aX, FDT13, 9, 7, [(false, 5), (false, 2), (true, 2), (false, 3)]);
+// the same curve with the scalar field in two limbs (no GLV: `Fr::from(u64)` of a multi-limb field whose modulus
+// is below 2^64 panics inside ark-ff for values >= r, and `scalar_decomposition` goes through it)
+toy_sw!(T13aX, FDT13, Fr19x2, 0, 2, 1, 4, 1, {});
 // F_13, a = 0, b = 6: 7 points; phi = (3x, y) = 2·P; lattice (1,3),(-2,1)
 toy_sw!(T13b, FDT13, FDT7, 0, 6, 2, 1, 1, { glv_override!(); });
 toy_glv!(T13b, FDT13, 3, 2, [(true, 1), (true, 3), (false, 2), (true, 1)]);
@@ -560,37 +560,53 @@ fn res<A: AffineRepr>(cv: &Cv<A>, g: A::Group) -> String {
     (cv.pr)(&g.into_affine())
 }
 
-/// double-and-add, mul_bigint on both representations
-fn raw_ops<A: AffineRepr>(cv: &Cv<A>, out: &mut Out, rng: &mut Rng, pts: &[A], raws: &[Vec<u64>]) {
+/// double-and-add, mul_bigint on both representations; `nops` of the 4 operations per scalar (rotating)
+fn raw_ops<A: AffineRepr>(cv: &Cv<A>, out: &mut Out, rng: &mut Rng, pts: &[A], raws: &[Vec<u64>], nops: usize) {
     for p in pts {
         let ps = (cv.pr)(p);
-        for s in raws {
+        for (j, s) in raws.iter().enumerate() {
             let sh = hex_list_u64(s);
-            out.line(&format!("C04 dbladd.aff {} {} {}", cv.desc, ps, sh), &guarded(|| res(cv, (cv.dbl_aff)(p, s))));
-            let q = (cv.rep)(p, rng);
-            out.line(&format!("C04 dbladd.proj {} {} {}", cv.desc, ps, sh), &guarded(|| res(cv, (cv.dbl_proj)(&q, s))));
-            out.line(&format!("C04 mulbigint.aff {} {} {}", cv.desc, ps, sh), &guarded(|| res(cv, p.mul_bigint(s))));
-            let q = (cv.rep)(p, rng);
-            out.line(&format!("C04 mulbigint.proj {} {} {} {}", cv.desc, ps, sh, cv.ovr), &guarded(|| res(cv, q.mul_bigint(s))));
+            let on = |o: usize| nops >= 4 || (o + 4 - (j * nops) % 4) % 4 < nops;
+            if on(0) {
+                out.line(&format!("C04 dbladd.aff {} {} {}", cv.desc, ps, sh), &guarded(|| res(cv, (cv.dbl_aff)(p, s))));
+            }
+            if on(3) {
+                let q = (cv.rep)(p, rng);
+                out.line(&format!("C04 dbladd.proj {} {} {}", cv.desc, ps, sh), &guarded(|| res(cv, (cv.dbl_proj)(&q, s))));
+            }
+            if on(2) {
+                out.line(&format!("C04 mulbigint.aff {} {} {}", cv.desc, ps, sh), &guarded(|| res(cv, p.mul_bigint(s))));
+            }
+            if on(1) {
+                let q = (cv.rep)(p, rng);
+                out.line(&format!("C04 mulbigint.proj {} {} {} {}", cv.desc, ps, sh, cv.ovr), &guarded(|| res(cv, q.mul_bigint(s))));
+            }
         }
     }
 }
-/// `* Fr`, mul_bits_be
-fn scalar_ops<A: AffineRepr>(cv: &Cv<A>, out: &mut Out, rng: &mut Rng, pts: &[A], ks: &[A::ScalarField]) {
+/// `* Fr`, mul_bits_be; `nops` of the 3 operations per scalar (rotating)
+fn scalar_ops<A: AffineRepr>(cv: &Cv<A>, out: &mut Out, rng: &mut Rng, pts: &[A], ks: &[A::ScalarField], nops: usize) {
     for p in pts {
         let ps = (cv.pr)(p);
-        for k in ks {
+        for (j, k) in ks.iter().enumerate() {
             let kh = fh(k);
-            out.line(&format!("C04 mulscalar.aff {} {} {:x} {}", cv.desc, ps, cv.n, kh), &guarded(|| res(cv, *p * *k)));
-            let q = (cv.rep)(p, rng);
-            out.line(&format!("C04 mulscalar.proj {} {} {:x} {} {}", cv.desc, ps, cv.n, kh, cv.ovr), &guarded(|| res(cv, q * *k)));
-            // bit streams: the significant bits with some leading zeros
-            let mut bits: Vec<bool> = ark_ff::BitIteratorBE::without_leading_zeros(k.into_bigint()).collect();
-            let lz = match rng.below(4) { 0 => 0, 1 => 1, 2 => rng.below(70) as usize, _ => 64 * cv.n - bits.len() };
-            let mut b = vec![false; lz];
-            b.append(&mut bits);
-            let q = (cv.rep)(p, rng);
-            out.line(&format!("C04 mulbits {} {} {}", cv.desc, ps, bits_str(&b)), &guarded(|| res(cv, q.mul_bits_be(b.iter().copied()))));
+            let on = |o: usize| nops >= 3 || (o + 3 - (j * nops) % 3) % 3 < nops;
+            if on(2) {
+                out.line(&format!("C04 mulscalar.aff {} {} {:x} {}", cv.desc, ps, cv.n, kh), &guarded(|| res(cv, *p * *k)));
+            }
+            if on(0) {
+                let q = (cv.rep)(p, rng);
+                out.line(&format!("C04 mulscalar.proj {} {} {:x} {} {}", cv.desc, ps, cv.n, kh, cv.ovr), &guarded(|| res(cv, q * *k)));
+            }
+            if on(1) {
+                // bit streams: the significant bits with some leading zeros
+                let mut bits: Vec<bool> = ark_ff::BitIteratorBE::without_leading_zeros(k.into_bigint()).collect();
+                let lz = match rng.below(4) { 0 => 0, 1 => 1, 2 => rng.below(70) as usize, _ => 64 * cv.n - bits.len() };
+                let mut b = vec![false; lz];
+                b.append(&mut bits);
+                let q = (cv.rep)(p, rng);
+                out.line(&format!("C04 mulbits {} {} {}", cv.desc, ps, bits_str(&b)), &guarded(|| res(cv, q.mul_bits_be(b.iter().copied()))));
+            }
         }
     }
 }
@@ -751,18 +767,23 @@ fn cyc<F: Copy>(v: &[F], n: usize) -> Vec<F> {
 }
 
 // ------------------------------------------------------------------ per-curve drivers
-/// toy curve: every point × every scalar below (and a little above) twice the curve order
+/// toy curve: `full` = every point × every scalar 0 ..= 2·#E+1 (both tiers); otherwise points and scalars are
+/// sampled in the quick tier and dense in the thorough tier
 fn toy<A: AffineRepr>(cv: &Cv<A>, out: &mut Out, rng: &mut Rng, pts: &[A], thorough: bool, full: bool)
 where
     A::Group: ScalarMul<MulBase = A>,
 {
     let order = pts.len() as u64; // all points of the curve (identity included)
     let r = cv.r.to_u64_digits()[0];
+    let dense = full || thorough;
     // raw scalars: 0 ..= 2·#E + 1 in one limb; a selection with extra limbs; a few large ones
     let mut raws: Vec<Vec<u64>> = vec![vec![]];
-    let top = if full { 2 * order + 1 } else { (2 * r + 1).min(2 * order + 1) };
+    let top = 2 * order + 1;
+    let off = rng.below(5);
     for k in 0..=top {
-        raws.push(vec![k]);
+        if dense || k < 4 || (k + off) % 5 == 0 || (k + 2 >= r && k <= r + 2) || (k + 1 >= order && k <= order + 1) || k + 2 >= top {
+            raws.push(vec![k]);
+        }
     }
     for k in [0u64, 1, r - 1, r, r + 1, order, order + 1] {
         raws.push(vec![k, 0]);
@@ -773,63 +794,87 @@ where
     raws.push(vec![u64::MAX, u64::MAX]);
     raws.push(vec![u64::MAX - 1, u64::MAX, 0]);
     raws.push(vec![rng.next(), rng.next(), rng.next()]);
-    let sub: Vec<A> = if full { pts.to_vec() } else { pts.iter().step_by(if thorough { 3 } else { 11 }).copied().collect() };
-    raw_ops(cv, out, rng, &sub, &raws);
+    let sub: Vec<A> = if full { pts.to_vec() } else { pts.iter().skip(rng.below(3) as usize).step_by(if thorough { 3 } else { 23 }).copied().chain(pts[..1].iter().copied()).collect() };
+    raw_ops(cv, out, rng, &sub, &raws, 4);
     let ks: Vec<A::ScalarField> = small_field_scalars();
     let ks_s: Vec<A::ScalarField> = if full { ks.clone() } else { ks.iter().step_by(if thorough { 2 } else { 9 }).copied().collect() };
-    scalar_ops(cv, out, rng, &sub, &ks_s);
+    scalar_ops(cv, out, rng, &sub, &ks_s, 3);
     bits_ops(cv, out, rng, &sub[..sub.len().min(6)], 4);
     // wNAF: every valid small window with a fresh table (w = 10 -> 512 entries), invalid windows panic
-    let wsub: Vec<A> = if full { pts.to_vec() } else { sub.iter().take(8).copied().collect() };
+    let wsub: Vec<A> = if full { pts.to_vec() } else { sub.iter().take(if thorough { 12 } else { 4 }).copied().collect() };
     wnaf_ops(cv, out, rng, &wsub, &ks_s, &[2, 3, 4, 5, 6], 6);
     wnaf_ops(cv, out, rng, &wsub[..wsub.len().min(3)], &ks_s, &[7, 8, 9, 10], 10);
     wnaf_ops(cv, out, rng, &wsub[..wsub.len().min(2)], &ks_s[..ks_s.len().min(3)], &[0, 1, 64, 65], 10);
     let few: Vec<A::ScalarField> = ks.iter().step_by((ks.len() / 5).max(1)).copied().collect();
-    mwt_ops(cv, out, rng, &wsub[..wsub.len().min(4)], &few, &[2, 3, 4]);
+    mwt_ops(cv, out, rng, &wsub[..wsub.len().min(if thorough { 4 } else { 2 })], &few, &[2, 3, 4]);
     // fixed base: all scalars at once per table shape
     let kss: Vec<Vec<A::ScalarField>> = vec![ks.clone(), vec![], vec![ks[ks.len() - 1]], cyc(&ks, 33), cyc(&ks, if thorough { 1000 } else { 100 })];
-    let nss: Vec<usize> = if thorough { vec![0, 1, 2, 31, 32, 33, 63, 64, 65, 1000, 1024, 1025, 65536] } else { vec![0, 1, 31, 32, 33, 1000, 65536] };
+    let nss: Vec<usize> = if thorough { vec![0, 1, 2, 31, 32, 33, 63, 64, 65, 1000, 1024, 1025, 65536] } else { vec![0, 1, 31, 32, 33, 1000] };
     let rb = cv.rbits;
     let mut sss: Vec<usize> = vec![0, 1, 2, 3, 4, rb - 1, rb, rb + 1, rb + 2, rb + 3, 63, 64, 65, 64 * cv.n + 7];
     sss.sort();
     sss.dedup();
-    let bsub: Vec<A> = if full && thorough { pts.to_vec() } else { wsub.iter().take(4).copied().collect() };
+    let bsub: Vec<A> = if full && thorough { pts.to_vec() } else { wsub.iter().take(if thorough { 4 } else { 2 }).copied().collect() };
     batch_ops(cv, out, rng, &bsub, &kss[..3], &nss, &sss, true);
-    batch_ops(cv, out, rng, &bsub[..1], &kss[3..], &[1, 33], &[rb], false);
+    batch_ops(cv, out, rng, &bsub[..1], &kss[3..], &[1, 33, 65536], &[rb], false);
 }
-/// shipped / large curve: structured scalars × a few points
+/// shipped / large curve: structured scalars × a few points.  Each line costs two reference scalar
+/// multiplications in the driver (~10 ms each at 256 bits), so the quick tier rotates the operations over the
+/// scalar list (every scalar is still seen by some double-and-add path on some non-trivial point).
 fn large<A: AffineRepr>(cv: &Cv<A>, out: &mut Out, rng: &mut Rng, pts: &[A], thorough: bool, scale: usize)
 where
     A::Group: ScalarMul<MulBase = A>,
 {
-    let raws = raw_scalars(cv.n, &cv.r, rng, if thorough { 40 * scale } else { 6 * scale });
-    let np = if thorough { pts.len() } else { pts.len().min(3 + scale) };
-    // the identity and the generator see every scalar, the others a rotating third
-    for (i, p) in pts[..np].iter().enumerate() {
-        let sel: Vec<Vec<u64>> = raws.iter().enumerate().filter(|(j, _)| i < 2 || thorough || (j + i) % 3 == 0).map(|(_, s)| s.clone()).collect();
-        raw_ops(cv, out, rng, &[*p], &sel);
+    let raws = raw_scalars(cv.n, &cv.r, rng, if thorough { 40 * scale } else { 4 * scale });
+    let np = pts.len();
+    // pts[0] = identity (cheap for the driver), pts[1] = generator, the others rotate
+    raw_ops(cv, out, rng, &pts[..1], &raws, if thorough { 4 } else { 1 });
+    if thorough {
+        raw_ops(cv, out, rng, &pts[1..np], &raws, 4);
+    } else {
+        for (i, p) in pts[1..np].iter().enumerate() {
+            let sel: Vec<Vec<u64>> = raws.iter().enumerate().filter(|(j, _)| (j + i) % (np - 1) == 0).map(|(_, s)| s.clone()).collect();
+            raw_ops(cv, out, rng, &[*p], &sel, 2);
+        }
     }
-    let ks: Vec<A::ScalarField> = field_scalars(rng, if thorough { 30 * scale } else { 5 * scale });
-    for (i, p) in pts[..np].iter().enumerate() {
-        let sel: Vec<A::ScalarField> = ks.iter().enumerate().filter(|(j, _)| i < 2 || thorough || (j + i) % 4 == 0).map(|(_, s)| *s).collect();
-        scalar_ops(cv, out, rng, &[*p], &sel);
+    let ks: Vec<A::ScalarField> = field_scalars(rng, if thorough { 30 * scale } else { 4 * scale });
+    if thorough {
+        scalar_ops(cv, out, rng, pts, &ks, 3);
+    } else {
+        scalar_ops(cv, out, rng, &pts[..1], &ks[..8], 3);
+        for (i, p) in pts[1..np].iter().enumerate() {
+            let sel: Vec<A::ScalarField> = ks.iter().enumerate().filter(|(j, _)| (j + i) % (np - 1) == 0).map(|(_, s)| *s).collect();
+            scalar_ops(cv, out, rng, &[*p], &sel, 1);
+        }
     }
-    bits_ops(cv, out, rng, &pts[..2.min(pts.len())], if thorough { 20 } else { 4 });
-    // wNAF, windows 2..=10 fresh
-    let kw: Vec<A::ScalarField> = ks.iter().step_by(if thorough { 2 } else { 7 }).copied().collect();
-    wnaf_ops(cv, out, rng, &pts[1..np.min(3)], &kw, &[2, 3, 4, 5, 6, 7, 8, 9, 10], 4);
-    wnaf_ops(cv, out, rng, &pts[..1], &kw[..kw.len().min(4)], &[2, 5, 0, 1, 64], 3);
+    bits_ops(cv, out, rng, &pts[..2.min(np)], if thorough { 20 } else { 2 });
+    // wNAF, windows 2..=10 with fresh tables
+    let ws = [2usize, 3, 4, 5, 6, 7, 8, 9, 10];
+    if thorough {
+        let kw: Vec<A::ScalarField> = ks.iter().step_by(2).copied().collect();
+        wnaf_ops(cv, out, rng, &pts[1..np.min(3)], &kw, &ws, 4);
+    } else {
+        // every scalar once, windows rotating
+        for (j, k) in ks.iter().enumerate() {
+            wnaf_ops(cv, out, rng, &pts[1 + j % (np - 1)..2 + j % (np - 1)], &[*k], &ws[j % 9..j % 9 + 1], 3);
+        }
+    }
+    wnaf_ops(cv, out, rng, &pts[..1], &ks[ks.len() - 3..], &[2, 5, 0, 1, 64], 3);
     let few: Vec<A::ScalarField> = ks.iter().step_by((ks.len() / 3).max(1)).copied().collect();
-    mwt_ops(cv, out, rng, &pts[1..2], &few, &[2, 3]);
+    mwt_ops(cv, out, rng, &pts[1..2], &few, if thorough { &[2, 3, 4] } else { &[3] });
     // fixed base
-    let kb: Vec<A::ScalarField> = ks.iter().step_by((ks.len() / (if thorough { 24 } else { 8 })).max(1)).copied().collect();
+    let kb: Vec<A::ScalarField> = ks.iter().step_by((ks.len() / (if thorough { 24 } else { 4 })).max(1)).copied().collect();
     let rb = cv.rbits;
     let kss = vec![kb.clone(), vec![]];
-    batch_ops(cv, out, rng, &pts[1..2], &kss, &[1, 2, 31, 32, 33, 1000], &[rb - 1, rb, rb + 1, 64 * cv.n, 64 * cv.n + 5, 17, 0], false);
     if thorough {
+        batch_ops(cv, out, rng, &pts[1..2], &kss, &[1, 2, 31, 32, 33, 1000], &[rb - 1, rb, rb + 1, 64 * cv.n, 64 * cv.n + 5, 17, 0], false);
         batch_ops(cv, out, rng, &pts[..1], &kss[..1], &[1, 33], &[rb], false);
         batch_ops(cv, out, rng, &pts[2..3], &[cyc(&kb, 33), cyc(&kb, 1000)], &[33], &[rb], false);
     } else {
+        for (ns, ss) in [(1usize, rb), (2, rb - 1), (31, rb + 1), (32, 64 * cv.n), (33, 64 * cv.n + 5), (1000, rb), (1, 17), (1, 0)] {
+            batch_ops(cv, out, rng, &pts[1..2], &kss[..1], &[ns], &[ss], false);
+        }
+        batch_ops(cv, out, rng, &pts[1..2], &kss[1..], &[1], &[0, rb], false);
         batch_ops(cv, out, rng, &pts[2..3], &[cyc(&kb, 33)], &[], &[], false);
     }
 }
@@ -890,7 +935,6 @@ fn main() {
     sanity_sw::<M61a>("M61a", 0);
     sanity_sw::<SecpGlv>("SecpGlv", 0);
     sanity_glv::<T13a>("T13a");
-    sanity_glv::<T13aX>("T13aX");
     sanity_glv::<T13b>("T13b");
     sanity_glv::<T127a>("T127a");
     sanity_glv::<T127b>("T127b");
@@ -918,7 +962,7 @@ fn main() {
     // F_13: exhaustive in both tiers
     toy_sw_run!("T13a", T13a, "d".into(), true, glv: true);
     toy_sw_run!("T13aO", T13aO, glv_tok::<T13aO>(), true, glv: true);
-    toy_sw_run!("T13aX", T13aX, glv_tok::<T13aX>(), true, glv: true);
+    toy_sw_run!("T13aX", T13aX, "d".into(), true, glv: false);
     toy_sw_run!("T13b", T13b, glv_tok::<T13b>(), true, glv: true);
     toy_sw_run!("T13c", T13c, "d".into(), true, glv: false);
     toy_sw_run!("T13d", T13d, "d".into(), true, glv: false);
@@ -981,7 +1025,7 @@ fn main() {
         let ks2: Vec<_> = ks.iter().step_by(if th { 8 } else { 16 }).copied().collect();
         glv_ops::<SecpGlv>(&cv, &mut out, &mut rng, &pts[1..3], &ks2, false);
         let raws = raw_scalars(4, &cv.r, &mut rng, 4);
-        raw_ops(&cv, &mut out, &mut rng, &pts[1..2], &raws);
+        raw_ops(&cv, &mut out, &mut rng, &pts[1..2], &raws, if th { 4 } else { 1 });
         // determinant −r: k1 = k keeps the top bit for k ≥ 2^255 and the ladder skips a doubling mid-way
         let cvb = sw_cv::<SecpGlvBad>("secpglvbad", glv_tok::<SecpGlvBad>());
         let ptsb = sw_some_points::<SecpGlvBad>(&mut rng, 1);
@@ -995,10 +1039,10 @@ fn main() {
         // 12-limb scalars: a thin slice only (each line costs ~1500 field inversions in the driver)
         let raws = raw_scalars(cv.n, &cv.r, &mut rng, 2);
         let sel: Vec<Vec<u64>> = raws.iter().step_by(if th { 2 } else { 8 }).cloned().collect();
-        raw_ops(&cv, &mut out, &mut rng, &pts[1..2], &sel);
+        raw_ops(&cv, &mut out, &mut rng, &pts[1..2], &sel, if th { 4 } else { 1 });
         let ks: Vec<<C as CurveConfig>::ScalarField> = field_scalars(&mut rng, 2);
         let sel: Vec<_> = ks.iter().step_by(if th { 9 } else { 40 }).copied().collect();
-        scalar_ops(&cv, &mut out, &mut rng, &pts[1..2], &sel);
+        scalar_ops(&cv, &mut out, &mut rng, &pts[1..2], &sel, if th { 3 } else { 1 });
         wnaf_ops(&cv, &mut out, &mut rng, &pts[1..2], &sel[..sel.len().min(4)], &[2, 4, 7], 2);
         batch_ops(&cv, &mut out, &mut rng, &pts[1..2], &[sel[..sel.len().min(3)].to_vec()], &[1, 1000], &[cv.rbits], false);
     }
